@@ -294,3 +294,21 @@ var htmlSafeSet = [utf8.RuneSelf]bool{
 	'~':      true,
 	'\u007f': true,
 }
+
+// AppendJSONStrBody appends s to dst escaped so that it can be embedded
+// between the double quotes of a JSON string and is restored byte for byte
+// when the string is unescaped: the quote, the backslash and the control
+// bytes are escaped, every other byte is kept as it is.
+func AppendJSONStrBody(dst, s []byte) []byte {
+	for _, b := range s {
+		switch {
+		case b == '"' || b == '\\':
+			dst = append(dst, '\\', b)
+		case b < 0x20:
+			dst = append(dst, '\\', 'u', '0', '0', hex[b>>4], hex[b&0xF])
+		default:
+			dst = append(dst, b)
+		}
+	}
+	return dst
+}
